@@ -1,4 +1,196 @@
-// In-crate harnesses (included by the guarded hook at the end of the source file of the same name).
+// In-crate harnesses for autosar-data/src/parser.rs (included by the guarded hook at the end of that file).
 use super::*;
 
 include!(concat!(env!("AUTOSAR_DATA_VERIF_DIR"), "/harness/vk.rs"));
+
+fn is_ws(b: u8) -> bool {
+    b == b' ' || b == b'\t' || b == b'\n' || b == 0x0c || b == b'\r'
+}
+
+fn bytes_eq(a: &[u8], b: &[u8]) -> bool {
+    if a.len() != b.len() {
+        return false;
+    }
+    let mut i = 0;
+    while i < a.len() {
+        if a[i] != b[i] {
+            return false;
+        }
+        i += 1;
+    }
+    true
+}
+
+fn offset_in(buf: &[u8], part: &[u8]) -> usize {
+    unsafe { part.as_ptr().offset_from(buf.as_ptr()) as usize }
+}
+
+/// a parser in the middle of a document: symbolic current line L within a document of T lines (1 <= L <= T)
+fn any_parser(strict: bool, line: usize) -> ArxmlParser<'static> {
+    let mut p = ArxmlParser::new(PathBuf::new(), &[], strict);
+    p.line = line;
+    p
+}
+
+fn any_line() -> (usize, usize) {
+    let total = vk::any_usize();
+    let line = vk::any_usize();
+    vk::assume(line >= 1 && line <= total);
+    (line, total)
+}
+
+fn parser_err_line(e: &AutosarDataError) -> Option<usize> {
+    match e {
+        AutosarDataError::ParserError { line, .. } => Some(*line),
+        _ => None,
+    }
+}
+
+fn err_kind(e: &AutosarDataError) -> Option<core::mem::Discriminant<ArxmlParserError>> {
+    match e {
+        AutosarDataError::ParserError { source, .. } => Some(core::mem::discriminant(source)),
+        _ => None,
+    }
+}
+
+fn ascii_str<'a>(b: &'a [u8]) -> &'a str {
+    let mut i = 0;
+    while i < b.len() {
+        vk::assume(b[i] < 0x80);
+        i += 1;
+    }
+    // SAFETY: all bytes are ASCII
+    unsafe { core::str::from_utf8_unchecked(b) }
+}
+
+// ---------------------------------------------------------------------------------------------------------
+// trim_byte_string
+// ---------------------------------------------------------------------------------------------------------
+// C02: total on every byte string (incl. empty and all-blank)
+macro_rules! h_par_trim_total {
+    ($name:ident, $n:literal, $unw:literal) => {
+        #[cfg_attr(kani, kani::proof)]
+        #[cfg_attr(kani, kani::unwind($unw))]
+        pub fn $name() {
+            let buf: [u8; $n] = vk::any_bytes::<$n>();
+            let len = vk::any_usize();
+            vk::assume(len <= $n);
+            let out = trim_byte_string(&buf[..len]);
+            vk_cover!(out.len() == 0 && len > 0, "all-blank input");
+            vk_cover!(out.len() > 0 && out.len() < len, "something trimmed");
+            vk_check!(out.len() <= len, "trim_byte_string returned more than it was given");
+        }
+    };
+}
+
+// C01: exactly the leading and trailing XML white space is removed, nothing else
+macro_rules! h_par_trim_exact {
+    ($name:ident, $n:literal, $unw:literal) => {
+        #[cfg_attr(kani, kani::proof)]
+        #[cfg_attr(kani, kani::unwind($unw))]
+        pub fn $name() {
+            let buf: [u8; $n] = vk::any_bytes::<$n>();
+            let len = vk::any_usize();
+            vk::assume(len <= $n);
+            let out = trim_byte_string(&buf[..len]);
+            // reference
+            let mut s = 0;
+            while s < len && is_ws(buf[s]) {
+                s += 1;
+            }
+            let mut e = len;
+            while e > s && is_ws(buf[e - 1]) {
+                e -= 1;
+            }
+            vk_cover!(s > 0 && e < len && e > s, "white space on both sides");
+            vk_check!(out.len() == e - s, "trimmed length differs from the XML definition of surrounding white space");
+            if e > s {
+                vk_check!(offset_in(&buf, out) == s, "trimmed text starts at the wrong byte");
+            }
+        }
+    };
+}
+
+// ---------------------------------------------------------------------------------------------------------
+// unescape_string: C02 totality + line, C08 strict/lenient relation, C01 faithfulness of entity decoding
+// ---------------------------------------------------------------------------------------------------------
+macro_rules! h_par_unescape_total {
+    ($name:ident, $n:literal, $unw:literal, $strict:literal) => {
+        #[cfg_attr(kani, kani::proof)]
+        #[cfg_attr(kani, kani::unwind($unw))]
+        pub fn $name() {
+            let buf: [u8; $n] = vk::any_bytes::<$n>();
+            let len = vk::any_usize();
+            vk::assume(len <= $n);
+            let text = ascii_str(&buf[..len]);
+            let (line, total) = any_line();
+            let mut p = any_parser($strict, line);
+            let r = p.unescape_string(text);
+            match &r {
+                Ok(v) => {
+                    vk_cover!(v.len() < len, "an entity was decoded");
+                }
+                Err(e) => {
+                    vk_cover!(true, "rejected");
+                    let l = parser_err_line(e);
+                    vk_check!(l.is_some() && l.unwrap() >= 1 && l.unwrap() <= total, "parser error line outside the input's lines");
+                }
+            }
+            let mut i = 0;
+            while i < p.warnings.len() {
+                let l = parser_err_line(&p.warnings[i]);
+                vk_check!(l.is_some() && l.unwrap() >= 1 && l.unwrap() <= total, "parser warning line outside the input's lines");
+                i += 1;
+            }
+            core::mem::forget(r);
+            core::mem::forget(p);
+        }
+    };
+}
+
+// one symbolic skeleton for the character-reference paths: PRE ++ hole bytes ++ POST, holes over all ASCII values
+macro_rules! h_par_unescape_tmpl_total {
+    ($name:ident, $pre:literal, $holes:literal, $post:literal, $unw:literal, $strict:literal) => {
+        #[cfg_attr(kani, kani::proof)]
+        #[cfg_attr(kani, kani::unwind($unw))]
+        pub fn $name() {
+            const PRE: &[u8] = $pre;
+            const POST: &[u8] = $post;
+            let mut buf = [0u8; $pre.len() + $holes + $post.len()];
+            let mut i = 0;
+            while i < PRE.len() {
+                buf[i] = PRE[i];
+                i += 1;
+            }
+            let holes: [u8; $holes] = vk::any_bytes::<$holes>();
+            let mut j = 0;
+            while j < $holes {
+                buf[i] = holes[j];
+                i += 1;
+                j += 1;
+            }
+            let mut k = 0;
+            while k < POST.len() {
+                buf[i] = POST[k];
+                i += 1;
+                k += 1;
+            }
+            let text = ascii_str(&buf[..]);
+            let (line, total) = any_line();
+            let mut p = any_parser($strict, line);
+            let r = p.unescape_string(text);
+            match &r {
+                Ok(v) => {
+                    vk_cover!(v.len() < buf.len(), "the reference was decoded");
+                }
+                Err(e) => {
+                    vk_cover!(true, "rejected");
+                    let l = parser_err_line(e);
+                    vk_check!(l.is_some() && l.unwrap() >= 1 && l.unwrap() <= total, "parser error line outside the input's lines");
+                }
+            }
+            core::mem::forget(r);
+            core::mem::forget(p);
+        }
+    };
+}
